@@ -1,6 +1,7 @@
 ---------------------------- MODULE SetAttr_Trace ----------------------------
 (* code -> spec for C31.  A trace is one served file and a sequence of attribute  *)
-(* changes applied to it through one route; each step carries the file as seen by  *)
+(* changes applied to it (route of the trace, or route "env": os.* directly, made   *)
+(* between the others); each step carries the file as seen by                      *)
 (* os.stat / read before the change, the attributes sent, and the file after.      *)
 (* The step for line l is always taken (total verdict): the observation is read as *)
 (* a finished run of SetAttr's helper and bad' = SetAttr!Verdict on it.            *)
@@ -14,7 +15,8 @@ TInit == /\ tid \in 1..Len(Batch) /\ l = 1 /\ bad = {}
 TNext == /\ l <= Len(T.steps) /\ l' = l + 1 /\ tid' = tid
          /\ LET s == T.steps[l] IN
               /\ file0' = s.before /\ attr' = s.attr /\ file' = s.after /\ pc' = "done"   \* a finished run of the helper
-              /\ bad' = Verdict'
+              \* a step of kind "write" is a mutation made between attribute changes (SetAttr_Session!Write): nothing to judge
+              /\ bad' = (IF s.kind = "write" THEN {} ELSE Verdict')
                        \cup (IF s.raised THEN {"P_call_failed"} ELSE {})
                        \cup (IF l > 1 /\ T.steps[l - 1].after.content # s.before.content THEN {"C_chain"} ELSE {})
 TSpec == TInit /\ [][TNext]_tvars
